@@ -400,6 +400,16 @@ func driveC19(c *Ctx) {
 			default:
 				d = string(b)
 			}
+			if si == 0 && rep == 1 && err == nil && !r.Panicked {
+				// the same value through the other entry point: a Schema value instead of a pointer
+				var b2 []byte
+				var err2 error
+				r2 := Op(func() { b2, err2 = json.Marshal(*s) })
+				c.CheckOp("Marshal(value)", r2)
+				if !r2.Panicked && (err2 != nil || string(b2) != d) {
+					c.Fail("C19/determinism", "value-vs-pointer", "json.Marshal(*s) gave %.200q (err %v), json.Marshal(s) gave %.200q", b2, err2, d)
+				}
+			}
 			if si == 0 && rep == 0 {
 				base = d
 				c.Out("marshal = %.300s", d)
